@@ -39,6 +39,15 @@ let parse v : step =
           if as_int cls = 0 && m = got then None
           else Some (Printf.sprintf "list: model [%s] impl [%s]" (String.concat "," m) (String.concat "," got))
         | _ -> Some "list") }
+  | [I "13"; _s; ids; name; cls; got] ->
+    let got = List.sort compare (List.map as_bytes (as_list got)) in
+    { mops = [PListF (List.map as_cbytes (as_list ids), as_cbytes name)];
+      check = (function
+        | [QStores l] ->
+          let m = List.sort compare (List.map (fun (i, _) -> str i) l) in
+          if as_int cls = 0 && m = got then None
+          else Some (Printf.sprintf "listf: model [%s] impl [%s]" (String.concat "," m) (String.concat "," got))
+        | _ -> Some "listf") }
   | [I "4"; s; id; variant; cls] ->
     { mops = [PWriteModel (as_cbytes s, as_cbytes id, body (as_int variant))];
       check = (function [QOk] -> expect_cls "wmodel" 0 (as_int cls) | _ -> Some "wmodel: model refuses") }
@@ -116,8 +125,34 @@ let parse v : step =
         check = (function [QNotFound] -> expect_cls "rasserts" 2 (as_int cls) | _ -> Some (Printf.sprintf "rasserts: impl=class %d, model knows the model id" (as_int cls))) }
   | _ -> failwith "op"
 
+(* sqlite: the store-table operations are also replayed on the model of sqlite's store table *)
+let sql_table_diff ops =
+  let tops = List.filter_map (fun v ->
+    match as_list v with
+    | [I "0"; s; name; cls] -> Some (TCreate (as_cbytes s, as_cbytes name), `C (as_int cls))
+    | [I "1"; s; cls] -> Some (TDelete (as_cbytes s), `C (as_int cls))
+    | [I "2"; s; cls; _] -> Some (TGet (as_cbytes s), `C (as_int cls))
+    | [I "3"; _; _; ids] -> Some (TList ([], []), `L (List.sort compare (List.map as_bytes (as_list ids))))
+    | [I "13"; _; ids; name; _; got] ->
+      Some (TList (List.map as_cbytes (as_list ids), as_cbytes name), `L (List.sort compare (List.map as_bytes (as_list got))))
+    | _ -> None) ops in
+  let tr = sql_ttrace [] (List.map fst tops) in
+  let rec go i tr obs =
+    match tr, obs with
+    | (_, out) :: tr', (_, o) :: obs' ->
+      let ok = match out, o with
+        | TStore _, `C 0 | TOk, `C 0 -> true
+        | TNotFound, `C 6 -> true
+        | TStores l, `L got -> List.sort compare (List.map (fun (i, _) -> str i) l) = got
+        | _ -> false in
+      if ok then go (i + 1) tr' obs' else Some (Printf.sprintf "sqlite store table: store operation %d differs from the model" i)
+    | _ -> None in
+  go 0 tr tops
+
 let f _id vs =
   match vs with
+  | [backend; _combo; ops] when (match sql_table_diff (if as_int backend = 1 then as_list ops else []) with Some _ -> true | None -> false) ->
+    (match sql_table_diff (as_list ops) with Some t -> "DIFF " ^ t | None -> "OK")
   | [_backend; _combo; ops] ->
     let steps = List.map parse (as_list ops) in
     let h = List.concat_map (fun st -> st.mops) steps in
